@@ -12,6 +12,9 @@ from ..common import (REPO, Report, cobs, cstr, clist, decide, load_findings, ru
                       standard_proof_part, write_replay)
 
 PROP = "C06"
+# the same object / constant at two or three positions (all (T, R1, R2[, R3]) combinations of a small forest)
+REPEAT_KINDS = ["rep2_fact", "rep2_goal", "rep2_cfact", "rep2_fluent", "rep2_cfluent", "rep2_tfluent",
+                "rep3_fact", "rep3m_fact", "rep3_fluent"]
 CONST_KINDS = ["cforall_pre", "cforall_eff"]       # finding D30: observed in cases of their own
 SITE_KINDS = ["fact", "goal", "fact2", "fluent", "fluent2", "cfact", "cfluent", "tfluent", "tfact",
               "forall_pre", "forall_eff", "joint_eff"]
@@ -160,6 +163,22 @@ def site_domain_text(groups, trailing, names):
                 " ".join(types_tokens(groups, trailing)), consts, preds, funcs, "\n ".join(acts)))
 
 
+def repeat_domain_text(groups, trailing, names):
+    """binary and ternary predicates / functions for EVERY combination of required types"""
+    consts = " ".join("k%s - %s" % (t, t) for t in names)
+    preds, funcs = [], []
+    for r1 in names:
+        for r2 in names:
+            preds.append("(b_%s_%s ?x - %s ?y - %s)" % (r1, r2, r1, r2))
+            funcs.append("(fb_%s_%s ?x - %s ?y - %s)" % (r1, r2, r1, r2))
+            for r3 in names:
+                preds.append("(c_%s_%s_%s ?x - %s ?y - %s ?z - %s)" % (r1, r2, r3, r1, r2, r3))
+                funcs.append("(fc_%s_%s_%s ?x - %s ?y - %s ?z - %s)" % (r1, r2, r3, r1, r2, r3))
+    return ("(define (domain c06) (:requirements :typing :fluents)\n (:types %s)\n (:constants %s)\n"
+            " (:predicates %s)\n (:functions %s))" % (" ".join(types_tokens(groups, trailing)), consts,
+                                                      " ".join(preds), " ".join(funcs)))
+
+
 # ------------------------------------------------------------------------------------------------ cases
 def mk_case(groups, trailing, kind, sites=False, rng=None, witness_of=None, names=None, kinds=None):
     groups = [(list(cs), p) for cs, p in groups]
@@ -172,8 +191,11 @@ def mk_case(groups, trailing, kind, sites=False, rng=None, witness_of=None, name
         if rng is not None:
             rng.shuffle(objs)
         c["objects"] = objs
-        c["domain_text"] = site_domain_text(groups, trailing, names)
         c["kinds"] = list(kinds or SITE_KINDS)
+        if c["kinds"][0].startswith("rep"):
+            c["domain_text"] = repeat_domain_text(groups, trailing, names)
+        else:
+            c["domain_text"] = site_domain_text(groups, trailing, names)
         if c["kinds"] == CONST_KINDS:
             c["klass"] = "D30"
     else:
@@ -397,6 +419,14 @@ def build_cases(rng, tier, seed=0):
             gs, tr = apply_names(rng.sample(lines, len(lines)), trailing, name_map(len(par), rng))
             cases.append(mk_case(gs, tr, "forest-sites", sites=True, rng=rng))
     stats["arrangements_in_scope"] = n_arr
+    # 3a. repeated arguments: every forest with <= 3 types, all (T, R1, R2[, R3]) combinations
+    small = [par for par in fs if len(par) <= 3]
+    stats["small_forests_for_repeats"] = len(small)
+    for par in small:
+        for _ in range(1 if tier == "quick" else 3):
+            lines, trailing = rng.choice(regroupings(par))
+            gs, tr = apply_names(rng.sample(lines, len(lines)), trailing, name_map(len(par), rng))
+            cases.append(mk_case(gs, tr, "forest-repeats", sites=True, rng=rng, kinds=REPEAT_KINDS))
     # 3b. quantifiers over CONSTANTS through the library's pipeline (finding D30), in cases of their own
     for par in (rng.sample(fs, 6) if tier == "quick" else fs):
         lines, trailing = rng.choice(regroupings(par))
@@ -506,6 +536,7 @@ def run(args):
                    "under %s of the lines; type names t1..t6 assigned canonically or shuffled.  Observed per case: Domain.types keys, "
                    "all-pairs is_sub_type, create_type_hierarchy_graph edges; for site cases (%s) all (object type, required type) pairs at: "
                    "ProblemParser init fact / goal fact / 2nd argument / fluent / constant arguments, TrajectoryParser fluent and fact, "
+                   "the SAME object / constant at 2 or 3 positions of a fact / goal / fluent for all (T, R1, R2[, R3]) of every forest with <= 3 types, "
                    "forall precondition (applicability on crafted states), forall-when effect (successor) and the same effect under joint execution (multi_agent.common.apply_actions).  Plus cyclic variants (must be "
                    "rejected), two-parent variants (model agreement only), random forests with 5-10 types, the (:types) sections of the "
                    "repository's fixture domains.  Non-trivial: some type has a declared parent other than object (depth >= 2); distinct by input hash."
